@@ -74,7 +74,7 @@ def cases(tier, seed):
         yield ('seqint', s, 1, 'vector', seed)
     # larger scope: many thousands of cycles in one column (label counters, caches and block sizes live here)
     for ncyc in (300, 33000) if tier == 'quick' else (300, 5000, 33000, 70000):
-        yield ('giant', ncyc, 1, 'vector', seed)
+        yield ('giant', ncyc, 0, 'vector', seed)     # phase_step = pi: every cycle boundary of the 3..6-sample cycles is a wrap
 
 
 def decode_case(c):
